@@ -184,6 +184,7 @@ def fista_cases(draw, tier="quick"):
     c["d"] = draw(gen.vec(n, -1, 1))
     c["dscale"] = draw(st.sampled_from([1e-4, 1e-2, 1.0]))
     c["reassign"] = draw(st.booleans())
+    c["x0_dtype"] = draw(st.sampled_from(["float64", "float64", "int", "float32"]))
     if c["form"] == "sparse":
         c["form"] = "matrix"
     return c
@@ -206,6 +207,10 @@ def run_fista(c, rec):
     Am = build_A(c)
     m, n = Am.shape
     b, x0 = A(c["b"]), A(c["x0"])
+    if c.get("x0_dtype") == "int":
+        x0 = np.round(x0).astype(int)        # a start vector written with integers
+    elif c.get("x0_dtype") == "float32":
+        x0 = x0.astype(np.float32)
     prox, reg, feas = make_prox(c)
     t = c["frac"] / np.linalg.norm(Am, 2) ** 2
     maxit = 40000
@@ -224,7 +229,8 @@ def run_fista(c, rec):
     sol, k = out
     Tx = prox(sol - t * (Am.T @ (Am @ sol - b)), t)
     active = bool(np.any(np.abs(Tx - (sol - t * (Am.T @ (Am @ sol - b)))) > 1e-12))
-    tags = {"solver": "FISTA" if c["adaptive"] else "ISTA", "prox": c["prox"], "form": c["form"], "reassigned": bool(c.get("reassign"))}
+    tags = {"solver": "FISTA" if c["adaptive"] else "ISTA", "prox": c["prox"], "form": c["form"], "reassigned": bool(c.get("reassign")),
+            "x0_dtype": c.get("x0_dtype", "float64")}
     if rec.classify(tags, active and (m != n or np.any(x0 != 0))):
         return
     if k >= maxit:
@@ -249,7 +255,9 @@ def lm_cases(draw, tier="quick"):
     return {"n": n, "m": m, "U": draw(gen.mat(m, m, -1, 1)), "V": draw(gen.mat(n, n, -1, 1)),
             "s": draw(st.lists(gen.fl(1.0, 5.0), min_size=n, max_size=n)), "cc": draw(st.sampled_from([0.0, 0.3, 0.8])),
             "y": draw(gen.vec(m, -2, 2)), "x0": draw(gen.vec(n, -2, 2)), "sparse": draw(st.booleans()),
-            "gradtol": draw(st.sampled_from([1e-8, 1e-5, 1e-3]))}
+            "gradtol": draw(st.sampled_from([1e-8, 1e-5, 1e-3])),
+            # the same problem translated: unknowns of magnitude 1e3 / 1e6
+            "offset": draw(st.sampled_from([0.0, 0.0, 1e3, 1e6]))}
 
 
 def run_lm(c, rec):
@@ -261,14 +269,20 @@ def run_lm(c, rec):
     Pad = np.zeros((m, n))
     Pad[:n, :n] = np.eye(n)
 
+    off = float(c.get("offset", 0.0))
+    if off:
+        x0 = x0 + off
+
     def res(x):
+        x = np.asarray(x, dtype=float) - off
         return B @ x + cc * (Pad @ np.tanh(x)) - y
 
     def jac_dense(x):
+        x = np.asarray(x, dtype=float) - off
         return B + cc * (Pad @ np.diag(1 - np.tanh(x) ** 2))
 
     jac = (lambda x: sp.csr_matrix(jac_dense(x))) if c["sparse"] else jac_dense
-    tags = {"solver": "LM", "sparse": c["sparse"], "nonlinear": cc > 0}
+    tags = {"solver": "LM", "sparse": c["sparse"], "nonlinear": cc > 0, "offset": off}
     if rec.classify(tags, m > n or cc > 0):
         return
     g0 = np.linalg.norm(jac_dense(x0).T @ res(x0))
@@ -386,6 +400,9 @@ def run_proj(c, rec):
         feas = np.clip(cc, l2, u2)
         require((x - p) @ (feas - p) <= 1e-12, "ProjectBox violates the variational inequality")
     g = c["gamma"]
+    for xe, ge in ((np.where(np.arange(len(x)) % 2 == 0, 0.0, x), 0.0), (np.zeros_like(x), 0.0), (x, 0.0)):
+        pe = np.asarray(cuqi.solver.ProximalL1(xe.copy(), ge))     # entries exactly zero, strength exactly zero: the identity
+        require(np.all(np.isfinite(pe)) and maxdiff(pe, xe) == 0, "ProximalL1 with strength 0 is not the identity (exact zeros in the input)", got=pe, x=xe)
     p = np.asarray(cuqi.solver.ProximalL1(x.copy(), g))
     want = np.sign(x) * np.clip(np.abs(x) - g, 0, None)
     require(maxdiff(p, want) <= 1e-15, "ProximalL1 is not soft-thresholding")
